@@ -9,7 +9,12 @@
    * SetUpValue(i, s, n): i < number of upindexes, n words readable;
    * Close / CloseHeapClosure / CloneHeap / Box*: operands readable;
    * Call: the callee expects no upvalues (it is entered without a closure);
-   * CloneUserSum / ReleaseUserSum on a type with boxed references: the type is in the table, the words are readable. *)
+   * CloneUserSum / ReleaseUserSum on a type with boxed references: the type is in the table, the words are readable;
+   * AllocArray: nothing; GetArrayElem / SetArrayElem: the handle and the index are readable, the annotation `f_ew` gives
+     the element width w for this program counter: w words are written at dst / readable at val;
+   * CallExtFun of an array builtin (len, split_head, split_tail, prepend, append and their `$arityN` forms) or of
+     `_mimium_schedule_at`: the callee index is a known constant, the argument words the builtin reads are inside the
+     words the call site prepared, the call site takes no more result words than the builtin leaves. *)
 From Coq Require Import List ZArith NArith Bool.
 From Mimium Require Import Heap.Model.
 From Mimium Require Import Bvm.Model Bvm.Verify Bvm.XModel.
@@ -22,8 +27,39 @@ Definition known_fn (p : program) (a : astate) (fr : N) : option fn :=
   | None => None
   end.
 
+(* an array builtin of plugin/builtin_functins.rs (Bvm/XModel.v arr_builtin): (argument words it reads, words it leaves) *)
+Definition arr_sig (op ew : N) : option (N * N) :=
+  match op with
+  | 0 => Some (1, 1)                      (* len *)
+  | 1 | 2 => Some (1, 2)                  (* split_head / split_tail: one-word elements (DynElemWidth otherwise) *)
+  | 11 | 12 => Some (1, ew + 1)           (* split_head$arityN / split_tail$arityN *)
+  | 3 | 4 => Some (2, 1)                  (* prepend / append *)
+  | 13 | 14 => Some (ew + 1, 1)           (* prepend$arityN / append$arityN *)
+  | _ => None
+  end.
+
 Definition xflow (p : program) (f : fn) (pc : N) (a : astate) (o : xop) : option (list (N * astate)) :=
   match o with
+  | XOld (UExt fr nargs nret) =>
+      (* an array builtin / the scheduler call: the words they read lie inside the argument words the call site prepared,
+         the words they leave cover what the call site takes *)
+      match alookup (a_regs a) fr with
+      | Some k =>
+          match rd1 (p_ext p) (Z.to_N k) with
+          | Some (ExtArr op ew) =>
+              match arr_sig op ew with
+              | Some (na, nr) =>
+                  if rdok a fr 1 && (fr + 1 + nargs <=? a_h a) && (na <=? nargs) && (nret <=? nr)
+                  then next1 pc (acall a fr nret) else None
+              | None => None
+              end
+          | Some ExtSched =>
+              if rdok a fr 1 && (fr + 1 + nargs <=? a_h a) && (2 <=? nargs) && (nret =? 0)
+              then next1 pc (acall a fr nret) else None
+          | _ => flow p f pc a (UExt fr nargs nret)
+          end
+      | None => None
+      end
   | XOld (UCall fr nargs nret) =>
       match known_fn p a fr with
       | Some g => match f_up g with [] => flow p f pc a (UCall fr nargs nret) | _ :: _ => None end
@@ -57,8 +93,19 @@ Definition xflow (p : program) (f : fn) (pc : N) (a : astate) (o : xop) : option
   | XBoxAlloc d s n => if rdok a s n then next1 pc (awrite a d 1) else None
   | XBoxLoad d s n => if rdok a s 1 then next1 pc (awrite a d n) else None
   | XBoxStore d s n => if rdok a d 1 && rdok a s n then next1 pc a else None
-  (* arrays: given a meaning by the model, not covered by the verifier (the width of an element is a run-time fact) *)
-  | XAllocArr _ _ _ | XGetArr _ _ _ | XSetArr _ _ _ => None
+  (* arrays: the width of an element is a run-time fact (elem_word_size of the array the handle names); the annotation
+     `f_ew` proposes it, the instrumented semantics checks it (DynElemWidth) *)
+  | XAllocArr d _ _ => next1 pc (awrite a d 1)
+  | XGetArr d ar i =>
+      match ew_hint f pc with
+      | Some w => if rdok a ar 1 && rdok a i 1 then next1 pc (awrite a d w) else None
+      | None => None
+      end
+  | XSetArr ar i v =>
+      match ew_hint f pc with
+      | Some w => if rdok a ar 1 && rdok a i 1 && rdok a v w then next1 pc a else None
+      | None => None
+      end
   end.
 
 Definition xcheck_at (p : program) (f : fn) (T : table) (pc : N) : bool :=
@@ -132,4 +179,4 @@ Definition xfirst_bad (p : program) : option (N * N) := xfirst_bad_from p (p_fun
 Definition old_instr (i : instr) : bool := match xdecode i with XOld _ => true | _ => false end.
 Definition closure_free (p : program) : bool :=
   forallb (fun f => forallb old_instr (f_code f)) (p_funs p) && forallb (fun b => b) (p_types p) &&
-  forallb (fun e => match e with ExtArr _ _ => false | _ => true end) (p_ext p).
+  forallb (fun e => match e with ExtArr _ _ | ExtSched => false | _ => true end) (p_ext p).
